@@ -9,6 +9,8 @@ class Unsupported(Exception):
 
 
 WS_CHARS = None
+DEFAULT_AXIOMS = []
+DEFAULT_AXIOMS_HAS_WS = [False]
 
 
 def ws_chars():
@@ -19,13 +21,35 @@ def ws_chars():
     return WS_CHARS
 
 
-def ws_re():
-    return z3.Star(z3.Union(*[z3.Re(z3.StringVal(c)) for c in ws_chars()]))
+F_ws = z3.Function("is_ws", z3.StringSort(), z3.BoolSort())
+_WS_AX = []
+
+
+def ws_axioms():
+    """is_ws is an uninterpreted predicate on one-character strings, constrained by ground facts generated from the
+    running CPython: every str.isspace() character is ws; every other ASCII character is not.  Proofs therefore hold
+    for any white-space set that agrees with CPython on these characters."""
+    if not _WS_AX:
+        for c in ws_chars():
+            _WS_AX.append(F_ws(z3.StringVal(c)))
+        for o in range(128):
+            if not chr(o).isspace():
+                _WS_AX.append(z3.Not(F_ws(z3.StringVal(chr(o)))))
+        _WS_AX.append(z3.Not(F_ws(z3.StringVal(""))))
+    return _WS_AX
 
 
 def is_ws_char(t):
     "t: z3 string of length 1 (or empty)"
-    return z3.Or(*[t == z3.StringVal(c) for c in ws_chars()])
+    if not DEFAULT_AXIOMS_HAS_WS[0]:
+        DEFAULT_AXIOMS_HAS_WS[0] = True
+        DEFAULT_AXIOMS.extend(ws_axioms())
+    return F_ws(t)
+
+
+def all_ws(t):
+    i = z3.FreshConst(z3.IntSort(), "wsi")
+    return z3.ForAll([i], z3.Implies(z3.And(i >= 0, i < z3.Length(t)), is_ws_char(z3.SubString(t, i, 1))))
 
 
 def sfun(name, *sorts):
@@ -91,7 +115,6 @@ def lift_list(v: Val, want: TList = None) -> VList:
     raise Unsupported("lift_list of %r" % (v,))
 
 
-DEFAULT_AXIOMS = []
 _DARR = {}
 
 
